@@ -43,6 +43,11 @@ fn rep(ctx: &mut Ctx, f: Fail) -> Result<(), Fail> {
     ctx.report(f)
 }
 
+fn strict_state() -> bool {
+    static V: std::sync::OnceLock<bool> = std::sync::OnceLock::new();
+    *V.get_or_init(|| std::env::var("VERIF_C13_STATE").is_ok())
+}
+
 struct Run {
     bed: Bed,
     /// armed-source masks seen at probes
@@ -223,6 +228,7 @@ impl Run {
         };
         ctx.note(|| format!("t={} probe: poll_at={:?} armed=[{}] early instants {:?}", now, d, mask_names(armed), instants));
         let slaac_erased = self.bed.slaac && d.is_none();
+        let fp0 = self.bed.fingerprint();
         for t in instants {
             self.bed.now = t;
             self.early_polls += 1;
@@ -254,6 +260,30 @@ impl Run {
                 // the schedule is broken from here on; what was transmitted is real, carry on from t
                 break;
             }
+            // Beyond the literal statement (which speaks of transmissions): an early poll that changes
+            // socket states / queues / interface addresses means a silent timer (TIME-WAIT, address or
+            // lease expiry, ...) or deferred work ran before the announced deadline, i.e. sleeping until
+            // the deadline would have delayed it. Counted; a failure only with VERIF_C13_STATE=1.
+            let fp1 = self.bed.fingerprint();
+            if fp1 != fp0 {
+                let what = self.bed.fingerprint_diff(&fp0, &fp1);
+                ctx.label(&format!("early-state-change:{}", what));
+                ctx.count("early_state_changes", 1);
+                if strict_state() {
+                    let msg = format!(
+                        "poll_at({} us) returned {:?}; the early poll at {} us transmitted nothing relevant but changed observable state ({}); armed sources [{}]; scenario {}; {}",
+                        now,
+                        d,
+                        t,
+                        what,
+                        mask_names(armed),
+                        self.bed.kind,
+                        self.bed.describe()
+                    );
+                    rep(ctx, Fail::new(format!("early-state-change:{}", what), msg))?;
+                }
+                break;
+            }
             if infos.is_empty() {
                 self.spin_check(src, ctx)?;
                 if self.stop {
@@ -267,7 +297,41 @@ impl Run {
     }
 }
 
+/// A panic raised inside smoltcp gets a key without the function name: which frame is innermost
+/// depends on inlining along the call path (poll vs poll_at), the file and message do not.
 fn case(src: &mut Src, ctx: &mut Ctx) -> Result<(), Fail> {
+    match vkit::runner::guarded(|| case_inner(src, ctx)) {
+        Ok(r) => r,
+        Err(p) if vkit::runner::panic_in_smoltcp(&p) => {
+            let file = if !p.smol_file.is_empty() {
+                p.smol_file.clone()
+            } else {
+                match p.file.find("/repo/src/") {
+                    Some(i) => p.file[i + 6..].to_string(),
+                    None => p.file.clone(),
+                }
+            };
+            let mut msg = String::new();
+            let mut in_num = false;
+            for c in p.msg.chars() {
+                if c.is_ascii_digit() {
+                    if !in_num {
+                        msg.push('N');
+                    }
+                    in_num = true;
+                } else {
+                    in_num = false;
+                    msg.push(c);
+                }
+            }
+            msg.truncate(120);
+            Err(Fail::new(format!("panic:{}:{}", file, msg), format!("smoltcp panicked at {}:{}: {}", p.file, p.line, p.msg)))
+        }
+        Err(p) => panic!("harness panic at {}:{}: {}", p.file, p.line, p.msg),
+    }
+}
+
+fn case_inner(src: &mut Src, ctx: &mut Ctx) -> Result<(), Fail> {
     let bed = Bed::generate(src, ctx);
     for part in bed.kind.split(|c| c == ':' || c == '+') {
         ctx.label(&format!("kind:{}", part));
@@ -382,7 +446,7 @@ pub fn prop() -> Prop {
         parts: vec![Part { name: "schedule", case, quick: 20_000, thorough: 1_000_000 }],
         phases: vec![],
         smoltcp_panic_is_violation: true,
-        rule: "one interface on Ethernet (5/9), Medium::Ip (3/9) or IEEE 802.15.4 (1/9) with a drawn mixture of 0-2 TCP sockets (active/passive, keep-alive, timeout, ack delay, Nagle, congestion control drawn) facing scripted peers (auto-ACK always/half/never, zero windows, data, triple duplicate ACKs, FIN, RST), a DHCPv4 client with an answering/lossy/silent scripted server (leases 2 s .. 1 day), a DNS socket with 1-3 servers each answering or silent, UDP/ICMP/raw sockets sending to resolved, unresolved, off-link, unroutable, broadcast and multicast destinations with datagrams up to 4000 bytes (IPv4 fragmentation) under drawn transmit budgets, and SLAAC with/without router advertisements (lifetimes 0 .. 1 day); steps: sleep exactly until poll_at, deliver/lose environment frames, application calls, peer actions, arbitrary waits, budget-limited polls. After every step the prober computes d = poll_at(now) and polls at now+1us, midpoint, d-1us (or +1 s/+100 s/+10^4 s when d is None): any frame other than IGMP/MLD is a violation; every full-budget poll without I/O that leaves poll_at <= now is repeated at the same instant and a second silent poll without observable progress with poll_at still <= now is a spin. Non-trivial = at least one probe with >= 1 armed timer source; distinct by (scenario kind, set of armed-source sets probed)",
+        rule: "one interface on Ethernet (5/9), Medium::Ip (3/9) or IEEE 802.15.4 (1/9) with a drawn mixture of 0-2 TCP sockets (active/passive, keep-alive, timeout, ack delay, Nagle, congestion control drawn) facing scripted peers (auto-ACK always/half/never, zero windows, data, triple duplicate ACKs, FIN, RST), a DHCPv4 client with an answering/lossy/silent scripted server (leases 2 s .. 1 day), a DNS socket with 1-3 servers each answering or silent, UDP/ICMP/raw sockets sending to resolved, unresolved, off-link, unroutable, broadcast and multicast destinations with datagrams up to 4000 bytes (IPv4 fragmentation) under drawn transmit budgets, and SLAAC with/without router advertisements (lifetimes 0 .. 1 day); steps: sleep exactly until poll_at, deliver/lose environment frames, application calls, peer actions, arbitrary waits, budget-limited polls. After every step the prober computes d = poll_at(now) and polls at now+1us, midpoint, d-1us (or +1 s/+100 s/+10^4 s when d is None): any frame other than IGMP/MLD is a violation; every full-budget poll without I/O that leaves poll_at <= now is repeated at the same instant and a second silent poll without observable progress with poll_at still <= now is a spin (the component holding the past deadline is found by removing sockets one by one next to a sentinel socket with a known future deadline). Early polls that transmit nothing but change socket states/queues/interface addresses are counted (label early-state-change:*, a failure only with VERIF_C13_STATE=1) since the statement speaks of transmissions only. Non-trivial = at least one probe with >= 1 armed timer source; distinct by (scenario kind, set of armed-source sets probed)",
         assumptions: vec![
             "independent Ethernet/ARP/NDISC/IPv4/IPv6/UDP/ICMP/TCP codecs in vkit::indep; they only feed the scripted environment, exclude IGMP/MLD and name the offending frame - the verdict is 'a frame was emitted'",
             "scripted DHCP replies are built with smoltcp::wire::DhcpRepr (contents are irrelevant to the oracle)",
